@@ -231,6 +231,14 @@ impl JTracker {
             if ok {
                 // from here on compare with the order exactly as the SUT stores it
                 self.recs[idx].view = post.buffer.last().unwrap().clone();
+            } else if post.buffer.len() == pre.buffer.len() + 1 {
+                if let Some(v) = post.buffer.last() {
+                    if !view_eq(&self.recs[idx].view, v, self.json) {
+                        // the exchange will match another order than the one the client sent: it follows
+                        // another row of the table (C18 is stated for the order as submitted)
+                        ctx.fail("C18", "submitted-order-altered", sig, format!("the exchange queued {} for the submitted {}", fmt_view(v), fmt_view(&self.recs[idx].view)));
+                    }
+                }
             }
             rule!(
                 ctx, "C03", "insert-buffered", sig, ok,
@@ -757,6 +765,7 @@ impl JTracker {
                     self.by_id.insert(id, i);
                 } else if let Some(i) = cands.first().copied() {
                     ctx.fail("C03", "admitted-altered", view_name(a), format!("admitted {} differs from submitted {}", fmt_view(a), fmt_view(&self.recs[i].view)));
+                    ctx.fail("C18", "submitted-order-altered", view_name(a), format!("admitted {} differs from submitted {}", fmt_view(a), fmt_view(&self.recs[i].view)));
                     self.recs[i].view = a.clone();
                     self.recs[i].status = St::Resting;
                     self.recs[i].id = Some(id);
